@@ -523,6 +523,7 @@ theorem b2mLoop_bdd_sound (dvars : List MVar) (m2 : Mgr) (hI : Inv m2)
     (out : B2MOut) (mb' : Mgr)
     (hr : b2mLoop rm (b2mBitToVar dvars) ord (MddMgr.new (some dvars)) [(1, 1)] m2 = (.ok out, mb')) :
     BSide dvars m2 mb' ∧ MInv out.mdd ∧ out.mdd.tbl.vars = dvars ∧
+    MReach dvars out.mdd (fun _ => 0) ∧
     ∀ (u : Nat) (r : Int), out.umap.lookup u = some r →
       mb'.tbl.Mem (u : Int) ∧ out.mdd.tbl.Mem r ∧
       ∀ (s : Int), s.natAbs = u → ∀ α, MValid out.mdd.tbl α →
@@ -555,12 +556,12 @@ theorem b2mLoop_bdd_sound (dvars : List MVar) (m2 : Mgr) (hI : Inv m2)
     · subst hx; exact Or.inl rfl
     · have : (x == 1) = false := by simpa using hx
       simp [List.lookup_cons, this] at hl
-  obtain ⟨hP', hinv, hext, hU, hQ⟩ := b2mLoop_sound_gen Qb (fun m => semB dvars m.tbl) (Lb dvars)
+  obtain ⟨hP', hinv, hext, hU, hQ, hR⟩ := b2mLoop_sound_gen Qb (fun m => semB dvars m.tbl) (Lb dvars)
     (fun mb x α hx => semB_neg dvars mb.tbl x α hx) rm (b2mBitToVar dvars) (BSide dvars m2)
     (fun u => (m2.tbl.node? u).isSome = true)
     (fun u umap mb var succs mb1 hP hK hs => b2mIntSucc_bddSide dvars m2 u umap mb var succs mb1 hP hK hs)
     ord _ _ m2 out mb' hord hP0 (MInv.init dvars) hU0 hQ0 hr
-  refine ⟨hP', hinv, hext.vars.symm, ?_⟩
+  refine ⟨hP', hinv, hext.vars.symm, hR _ _ MReach.init, ?_⟩
   intro u r hl
   obtain ⟨hm, _, hden⟩ := hU.ok u r hl
   have hmu : mb'.tbl.Mem (u : Int) := hQ u r hl
